@@ -1095,6 +1095,12 @@ func (sm *StyleManager) addTOCStyles() {
 // GetStyleWithInheritance 获取具有继承属性的样式
 // 如果样式基于其他样式，会合并父样式的属性
 func (sm *StyleManager) GetStyleWithInheritance(styleID string) *Style {
+	return sm.resolveStyleWithInheritance(styleID, make(map[string]bool))
+}
+
+// resolveStyleWithInheritance 沿 basedOn 链解析样式；visited 记录已访问的样式ID，
+// 遇到循环引用时停止继续向上解析（等同于父样式缺失）
+func (sm *StyleManager) resolveStyleWithInheritance(styleID string, visited map[string]bool) *Style {
 	style := sm.GetStyle(styleID)
 	if style == nil {
 		return nil
@@ -1105,8 +1111,14 @@ func (sm *StyleManager) GetStyleWithInheritance(styleID string) *Style {
 		return style
 	}
 
+	// 防止 basedOn 循环引用导致无限递归
+	if visited[styleID] {
+		return style
+	}
+	visited[styleID] = true
+
 	// 递归获取基础样式
-	baseStyle := sm.GetStyleWithInheritance(style.BasedOn.Val)
+	baseStyle := sm.resolveStyleWithInheritance(style.BasedOn.Val, visited)
 	if baseStyle == nil {
 		return style
 	}
